@@ -63,6 +63,9 @@ async def main():
             failed = type(err).__name__
         resource.setrlimit(resource.RLIMIT_FSIZE, (soft, hard))
         open(os.path.join(d, "PREFAIL.txt"), "w").write(failed)
+        if failed == "no error":
+            # the save claims success although the file could not grow: what is in the file now?
+            shutil.copy(path, os.path.join(d, "AFTERPREFAIL.bin"))
     gw.nodes.clear()
     gwdriver.build_registry(gw, new)
     # whatever else the library keeps next to the file at this point is part of every crash state
@@ -221,6 +224,10 @@ def record_ops(old, new, workroot: str, prefail: bool = False, mid=None) -> dict
         newbytes = None
     with open(os.path.join(d, "SAVERES.txt")) as fil:
         saveres = fil.read()
+    prefail_claim = None
+    if os.path.exists(os.path.join(d, "AFTERPREFAIL.bin")):
+        with open(os.path.join(d, "AFTERPREFAIL.bin"), "rb") as fil:
+            prefail_claim = fil.read()
     ambient = {}
     amb = os.path.join(d, "AMBIENT")
     if os.path.isdir(amb):
@@ -228,7 +235,8 @@ def record_ops(old, new, workroot: str, prefail: bool = False, mid=None) -> dict
             with open(os.path.join(amb, name), "rb") as fil:
                 ambient[name] = fil.read()
     shutil.rmtree(d, ignore_errors=True)
-    return {"ops": ops, "bufs": bufs, "old": oldbytes, "new": newbytes, "saveres": saveres, "ambient": ambient}
+    return {"ops": ops, "bufs": bufs, "old": oldbytes, "new": newbytes, "saveres": saveres, "ambient": ambient,
+            "prefail_claim": prefail_claim}
 
 
 def complete_on_return(loop, rec: dict, newp, workdir: str) -> str | None:
@@ -370,6 +378,12 @@ def check(prop: str) -> int:
         for pair, (old, rec, states, summ) in zip(pairs, prepared):
             oldname, newname = pair[0], pair[1]
             bad = complete_on_return(loop, rec, _proj_of(REGS[newname]), workdir)
+            if not bad and rec.get("prefail_claim") is not None:
+                # the earlier save returned normally although the file size limit was 8 bytes: then the file must hold the registry
+                claim = dict(rec, new=rec["prefail_claim"], saveres="ok")
+                bad2 = complete_on_return(loop, claim, _proj_of(old) if old is not None else [], workdir)
+                if bad2:
+                    bad = "a save that could not write reported success: " + bad2
             if bad:
                 rep.violation({"live": "save-incomplete-on-return", "after_failed_save": pair[2:] == ("after-failed-save",)},
                               {"kind": "save-crash", "old": old, "new": REGS[newname], "ops": rec["ops"], "crash_state": {"pc": 0, "part": -1, "files": []},
